@@ -43,7 +43,8 @@ INERT = ["beers", "and", "burgers", "lunch", "with", "bob", "call", "zahnarzt", 
 NOISE = [" ", "\t", "–", "—", "(", ")", "[", "]", ";", ",", "​", "\n",
          "　", "﻿", "€", "日本", "ß", "İ", "ǆ", "İ", "\U0001f600", "\x00",
          "‮", "%", "\\", "'", '"', ".", ":", "::", "..", "a.m.", "p.m", "h", "m",
-         "uhr"]
+         "uhr", "\u0661\u0662.\u0661\u0662.\u0662\u0660\u0662\u0660", "\uff11\uff12:\uff13\uff10",
+         "\u0663 pm", "\u0968\u0966\u0968\u0966"]
 
 FIXED_TEXTS = [
     "beers and burgers friday 8pm-9pm",
